@@ -21,9 +21,9 @@
 #include "wkdibe/wkdibe.h"
 #include "lqibe/lqibe.h"
 
-#define NFAM 14
+#define NFAM 15
 static const char* FAM[NFAM] = {"pairing", "g1-arith", "g2-arith", "gt-exp", "encoding", "hashing", "wkdibe-keys-enc-dec", "wkdibe-sign-verify", "wkdibe-marshal", "lqibe", "prepared-pairing", "pairing-sum",
-                                "wkdibe-precomputed-adjust", "wkdibe-nondelegable"};
+                                "wkdibe-precomputed-adjust", "wkdibe-nondelegable", "wkdibe-unmarshalled-objects"};
 #define L 4
 static thread_local int t_fam = -1;
 
@@ -61,6 +61,11 @@ struct Shared {
     embedded_pairing_lqibe_idhash_t ih;
     uint8_t params_bytes[4096]; size_t params_len;
     uint8_t hashbytes[96];
+    // objects that went through marshal/unmarshal (normalised representatives), of TWO hierarchies: operations alternate between them,
+    // so state keyed on "the parameters seen last" is exercised with different values at the same time
+    embedded_pairing_wkdibe_params_t pu[2]; embedded_pairing_wkdibe_g1_t hu[2][L];
+    embedded_pairing_wkdibe_secretkey_t sku[2]; embedded_pairing_wkdibe_freeslot_t bu[2][L];
+    embedded_pairing_wkdibe_masterkey_t mu[2];
 };
 static Shared* g_S;
 static Shared* g_snap;
@@ -70,7 +75,7 @@ static size_t g_maplen;
 struct Field { const char* name; size_t off, len; };
 #define FLD(f) { #f, offsetof(Shared, f), sizeof(((Shared*) 0)->f) }
 static const Field FIELDS[] = { FLD(p), FLD(h), FLD(m), FLD(sk), FLD(b), FLD(skfree), FLD(bfree), FLD(ndsk), FLD(ndb), FLD(at), FLD(al), FLD(atf), FLD(alf), FLD(att), FLD(alt), FLD(pref), FLD(msg), FLD(kbig),
-                                FLD(prep), FLD(q), FLD(pt), FLD(gt), FLD(lp), FLD(lm), FLD(id), FLD(lsk), FLD(lmbig), FLD(ih), FLD(params_bytes), FLD(params_len), FLD(hashbytes) };
+                                FLD(prep), FLD(q), FLD(pt), FLD(gt), FLD(lp), FLD(lm), FLD(id), FLD(lsk), FLD(lmbig), FLD(ih), FLD(params_bytes), FLD(params_len), FLD(hashbytes), FLD(pu), FLD(hu), FLD(sku), FLD(bu), FLD(mu) };
 
 static int check_inputs(const char* phase) {
     int changed = 0;
@@ -142,6 +147,22 @@ static void init_shared(uint64_t seed) {
     embedded_pairing_lqibe_keygen(&S.lsk, &S.lm, &S.id);
     S.params_len = embedded_pairing_wkdibe_params_get_marshalled_length(&S.p, true);
     embedded_pairing_wkdibe_params_marshal(S.params_bytes, &S.p, true);
+    for (int w = 0; w < 2; w++) {
+        // hierarchy 0 is S.p itself, hierarchy 1 a second setup; both reach the shared area only through marshal + unmarshal
+        embedded_pairing_wkdibe_params_t p2; embedded_pairing_wkdibe_g1_t h2[L]; p2.h = h2; embedded_pairing_wkdibe_masterkey_t m2;
+        embedded_pairing_wkdibe_secretkey_t k2; embedded_pairing_wkdibe_freeslot_t b2[L]; k2.b = b2;
+        const embedded_pairing_wkdibe_params_t* src = &S.p; const embedded_pairing_wkdibe_masterkey_t* msrc = &S.m; const embedded_pairing_wkdibe_secretkey_t* ksrc = &S.sk;
+        if (w == 1) { embedded_pairing_wkdibe_setup(&p2, &m2, L, true, prng); embedded_pairing_wkdibe_keygen(&k2, &p2, &m2, &S.al, prng); src = &p2; msrc = &m2; ksrc = &k2; }
+        static uint8_t buf[8192]; bool comp = w == 0;
+        S.pu[w].h = S.hu[w]; S.sku[w].b = S.bu[w];
+        embedded_pairing_wkdibe_params_marshal(buf, src, comp);
+        bool ok = embedded_pairing_wkdibe_params_set_length(&S.pu[w], buf, embedded_pairing_wkdibe_params_get_marshalled_length(src, comp), comp) == L && embedded_pairing_wkdibe_params_unmarshal(&S.pu[w], buf, comp, true);
+        embedded_pairing_wkdibe_secretkey_marshal(buf, ksrc, comp);
+        ok = ok && embedded_pairing_wkdibe_secretkey_set_length(&S.sku[w], buf, embedded_pairing_wkdibe_secretkey_get_marshalled_length(ksrc, comp), comp) >= 0 && embedded_pairing_wkdibe_secretkey_unmarshal(&S.sku[w], buf, comp, true);
+        embedded_pairing_wkdibe_masterkey_marshal(buf, msrc, comp);
+        ok = ok && embedded_pairing_wkdibe_masterkey_unmarshal(&S.mu[w], buf, comp, true);
+        if (!ok) { fprintf(stderr, "init: unmarshal of own output failed\n"); exit(3); }
+    }
     memcpy(g_snap, g_S, sizeof(Shared));
 }
 static void restore_shared(void) { memcpy(g_S, g_snap, sizeof(Shared)); }
@@ -278,6 +299,25 @@ static uint64_t run_op(int fam, uint64_t seed) {
         embedded_pairing_wkdibe_decrypt_master(&dec, &ct, &S.m);
         bool ok2 = embedded_pairing_bls12_381_gt_equal(&dec, &msg);
         d = fnv(d, &a.a0, sizeof a.a0); d = fnv(d, &q.a0, sizeof q.a0); d = fnv(d, &q.l, sizeof q.l); d = fnv(d, &rs.a1, sizeof rs.a1); d = fnv(d, &ok, 1); d = fnv(d, &ok2, 1); break;
+    }
+    case 14: {
+        int w = (int) (seed & 1);
+        embedded_pairing_wkdibe_signature_t sg; embedded_pairing_wkdibe_sign(&sg, &S.pu[w], &S.sku[w], &S.al, &k, prng);
+        bool ok = embedded_pairing_wkdibe_verify(&S.pu[w], &S.al, &sg, &k);
+        bool cross = embedded_pairing_wkdibe_verify(&S.pu[1 - w], &S.al, &sg, &k);             // other hierarchy: must reject
+        embedded_pairing_wkdibe_precomputed_t pre; embedded_pairing_wkdibe_precompute(&pre, &S.pu[w], &S.al);
+        bool ok2 = embedded_pairing_wkdibe_verify_precomputed(&S.pu[w], &pre, &sg, &k);
+        embedded_pairing_wkdibe_gt_t msg, dec; embedded_pairing_wkdibe_random_gt(&msg, prng);
+        embedded_pairing_wkdibe_ciphertext_t ct; embedded_pairing_wkdibe_encrypt(&ct, &msg, &S.pu[w], &S.al, prng);
+        embedded_pairing_wkdibe_decrypt(&dec, &ct, &S.sku[w]);
+        bool ok3 = embedded_pairing_bls12_381_gt_equal(&dec, &msg);
+        embedded_pairing_wkdibe_decrypt_master(&dec, &ct, &S.mu[w]);
+        bool ok4 = embedded_pairing_bls12_381_gt_equal(&dec, &msg);
+        embedded_pairing_wkdibe_secretkey_t q; embedded_pairing_wkdibe_freeslot_t b2[L]; q.b = b2;
+        embedded_pairing_wkdibe_qualifykey(&q, &S.pu[w], &S.sku[w], &S.al, prng);
+        d = fnv(d, &sg, sizeof sg); d = fnv(d, &ok, 1); d = fnv(d, &cross, 1); d = fnv(d, &ok2, 1); d = fnv(d, &ct, sizeof ct); d = fnv(d, &ok3, 1); d = fnv(d, &ok4, 1); d = fnv(d, &q.a0, sizeof q.a0);
+        if (!ok || cross || !ok2 || !ok3 || !ok4) d ^= 0x5555;   // still deterministic; a wrong verdict differs from the sequential replay only if it is schedule-dependent
+        break;
     }
     case 10: {
         embedded_pairing_bls12_381_g1_t a; embedded_pairing_bls12_381_g1affine_t aa; embedded_pairing_bls12_381_fq12_t e;
